@@ -167,7 +167,7 @@ def run_e2e(ctx):
                 for i, fr in enumerate(frs):
                     op = 1 if i == 0 else 0
                     stream += simnet.srv_frame(op, fr, fin=1 if i == len(frs) - 1 else 0)
-                for api in ("recv", "recv_data", "recv_data+trace", "recv_data+factory"):
+                for api in ("recv", "recv_data", "recv_data+trace", "recv_data+factory", "iter"):
                     if api == "recv_data+trace" and len(frs) < 2:
                         continue
                     # (fourth variant: the object comes from create_connection(); validation that is not switched off is
@@ -177,8 +177,8 @@ def run_e2e(ctx):
                     try:
                         # (tracing on for the third variant: the trace lines render every FRAME, the judgement is on the MESSAGE)
                         with session.tracing(api.endswith("+trace")):
-                            r = getattr(ws, api.split("+")[0])()
-                        if api == "recv":
+                            r = next(iter(ws)) if api == "iter" else getattr(ws, api.split("+")[0])()
+                        if api in ("recv", "iter"):
                             obs = ("ret", r.encode("utf-8", "surrogatepass") if isinstance(r, str) else bytes(r))
                         else:
                             obs = ("ret", bytes(r[1]), r[0])
@@ -210,10 +210,10 @@ def run_e2e(ctx):
                                         size=len(p) + len(frs))
                         # the str-returning call cannot pass ill-formed bytes through: it returns the text when there is one and
                         # raises the documented payload exception otherwise (C17_recv_no_internal)
-                        if api == "recv" and wf and (obs[0] != "ret" or obs[1] != p):
+                        if api in ("recv", "iter") and wf and (obs[0] != "ret" or obs[1] != p):
                             ctx.violate("skip-passthrough", "well-formed-not-delivered", inp, "returns the text", str(obs),
                                         size=len(p) + len(frs))
-                        if api == "recv" and not wf and obs != ("exn", "PAYLOAD"):
+                        if api in ("recv", "iter") and not wf and obs != ("exn", "PAYLOAD"):
                             ctx.violate("skip-passthrough", "recv-undecodable-not-payload-exception", inp, "raises PAYLOAD", str(obs),
                                         size=len(p) + len(frs))
         # the judgement does not depend on what the object went through before: a receive that timed out, or one that raised
@@ -288,7 +288,10 @@ def run_e2e(ctx):
             body = code.to_bytes(2, "big") + p
             if len(body) > 125:
                 continue
-            ws, sock = simnet.make_ws([("chunk", simnet.srv_frame(8, body))], skip_utf8_validation=skip, mask_key=b"abcd")
+            # (per-fragment delivery switched on for every other status code: it says how DATA frames are handed over, not
+            #  whether a close reason is judged)
+            fire = code in (1001, 3000, 4000)
+            ws, sock = simnet.make_ws([("chunk", simnet.srv_frame(8, body))], skip_utf8_validation=skip, fire_cont_frame=fire, mask_key=b"abcd")
             try:
                 r = ws.recv_data_frame(True)
                 obs = ("ret", r[0])
